@@ -535,8 +535,8 @@ func (p *Program) assembleQuery(res *FuncResult, o *Obl, forModel bool) string {
 func (p *Program) defaultTheories() []string {
 	var out []string
 	for _, th := range p.theoryOrder {
-		if th == "core" || th == "bytes" || th == "pricingrec" {
-			continue
+		if th == "core" || th == "bytes" || th == "bat" || th == "pricingrec" {
+			continue // byte-level theories (layer K) are loaded only where a contract or lemma names them, never together with "state"
 		}
 		out = append(out, th)
 	}
